@@ -14,7 +14,7 @@ checks and pings in reboot waits; the embedder presets any subset of the fields 
 every restart. Oracle: a model map app -> fields: after a successful check or ping present fields replace (even empty), \
 absent keep, the day number is taken or cleared; failed exchanges and unnamed apps change nothing; compared with every \
 update-check / ping request on the wire (cohort fields, ad = rd = day), the apps argument of every policy call, the \
-committed per-app record at the commit that ends the check, and the restored values after each restart (preset fields \
+committed per-app record at the commit that ends the check (after a successful ping: at the point the flow next asks for a timing), and the restored values after each restart (preset fields \
 win). non-trivial = a present-empty field, or >= 2 apps updated differently, or a restart with mixed presets; distinct by script hash.";
 
 pub fn profile() -> Profile {
@@ -43,6 +43,7 @@ pub fn check_history(h: &Hist) -> Result<(bool, Vec<&'static str>), Failure> {
     let mut last_req: BTreeMap<usize, ReqKind> = BTreeMap::new();
     let segs = crate::model::checks(log);
     let evals = evaluate(h);
+    let mut ping_commit_due = false;
     let mut pending_doc: Option<crate::respgen::XResp> = None; // accepted doc of the running check
     let apply = |model: &mut Vec<Fields>, doc: &crate::respgen::XResp, classes: &mut Vec<&'static str>, nontrivial: &mut bool| {
         let days = doc.daystart.and_then(|(d, _)| d);
@@ -119,8 +120,32 @@ pub fn check_history(h: &Hist) -> Result<(bool, Vec<&'static str>), Failure> {
                     }
                 }
                 pending_doc = None;
+                ping_commit_due = false;
             }
-            Op::NextTime { apps, .. } => cmp_apps(&model, apps, "apps given to compute_next_update_time", i)?,
+            Op::Crash { .. } | Op::MachineDropped => ping_commit_due = false,
+            Op::NextTime { apps, .. } => {
+                cmp_apps(&model, apps, "apps given to compute_next_update_time", i)?;
+                // a successful ping is finished once the flow asks for the next timing: by then the per-app records it
+                // changed are committed (an interval change may have been committed on its own before)
+                if std::mem::take(&mut ping_commit_due) {
+                    let c = committed_at(log, i, &h.script);
+                    for (k, id) in ids.iter().enumerate() {
+                        let rec = match c.get(id) {
+                            Some(SVal::S(s)) => parse_stored(s),
+                            _ => None,
+                        };
+                        if rec.as_ref() != Some(&model[k]) {
+                            return Err(failure(
+                                "committed-app-record-wrong-after-ping",
+                                format!("after a successful ping the record committed for app {id:?} is {rec:?}; it must be {:?}", model[k]),
+                                h,
+                                Some((i.saturating_sub(14), (i + 2).min(log.len()))),
+                            ));
+                        }
+                    }
+                    classes.push("ping_commit_checked");
+                }
+            }
             Op::CheckAllowed { apps, .. } => {
                 cmp_apps(&model, apps, "apps given to update_check_allowed", i)?;
                 check_start = model.clone();
@@ -161,6 +186,7 @@ pub fn check_history(h: &Hist) -> Result<(bool, Vec<&'static str>), Failure> {
                         if (200..300).contains(status) {
                             apply(&mut model, doc, &mut classes, &mut nontrivial);
                             classes.push("ping_applied");
+                            ping_commit_due = true;
                         }
                     }
                 }
